@@ -1,0 +1,154 @@
+//go:build verif
+
+package internal
+
+// Contracts for list.go, entry.go (link accessors) and policy_flag.go: intrusive ring lists
+// (property C07; reused by C04 for timer-wheel slots and by C11 for recency order).
+//
+// Ghost state (policy domain, prefix gh_po_): the member set of every list and a dense order label per
+// (list, member). "next is the least label above" makes the ring acyclic apart from the sentinel, so
+// a non-empty list has a back element that is a member, and recency order is label order.
+
+func gh_po_in[K comparable, V any](l *List[K, V], e *Entry[K, V]) bool   { panic("ghost") }
+func gh_po_ord[K comparable, V any](l *List[K, V], e *Entry[K, V]) real { panic("ghost") }
+
+// link accessors as specification functions (t: list type)
+func sp_nx[K comparable, V any](e *Entry[K, V], t uint8) *Entry[K, V] {
+	if t == WHEEL_LIST {
+		return e.meta.wheelNext
+	}
+	return e.meta.next
+}
+func sp_pv[K comparable, V any](e *Entry[K, V], t uint8) *Entry[K, V] {
+	if t == WHEEL_LIST {
+		return e.meta.wheelPrev
+	}
+	return e.meta.prev
+}
+
+func sp_validType(t uint8) bool {
+	return t == LIST_PROBATION || t == LIST_PROTECTED || t == WHEEL_LIST || t == LIST_WINDOW
+}
+
+// region flag bit of a list type (0 for wheel lists)
+func sp_regionBit(t uint8) int8 {
+	if t == LIST_PROBATION {
+		return 2
+	}
+	if t == LIST_PROTECTED {
+		return 4
+	}
+	if t == LIST_WINDOW {
+		return 64
+	}
+	return 0
+}
+
+func sp_isRoot(f int8) bool { return f&1 != 0 }
+
+// label of a node, the sentinel counting as 0
+func sp_lab[K comparable, V any](l *List[K, V], x *Entry[K, V]) real {
+	if x == &l.root {
+		return 0
+	}
+	return gh_po_ord(l, x)
+}
+
+// x is the sentinel or a member of l
+func sp_node[K comparable, V any](l *List[K, V], x *Entry[K, V]) bool {
+	return x == &l.root || gh_po_in(l, x)
+}
+
+// ring shape: members and the sentinel are linked consistently through the list's link fields
+func sp_listShape[K comparable, V any](l *List[K, V]) bool {
+	return sp_validType(l.listType) && sp_isRoot(l.root.flag.Flags) && !gh_po_in(l, &l.root) && !gh_po_in(l, nil) &&
+		sp_node(l, sp_nx(&l.root, l.listType)) && sp_node(l, sp_pv(&l.root, l.listType)) &&
+		sp_pv(sp_nx(&l.root, l.listType), l.listType) == &l.root && sp_nx(sp_pv(&l.root, l.listType), l.listType) == &l.root &&
+		all(func(x *Entry[K, V]) bool {
+			return imp(gh_po_in(l, x), !sp_isRoot(x.flag.Flags) &&
+				sp_node(l, sp_nx(x, l.listType)) && sp_node(l, sp_pv(x, l.listType)) &&
+				sp_pv(sp_nx(x, l.listType), l.listType) == x && sp_nx(sp_pv(x, l.listType), l.listType) == x)
+		})
+}
+
+// order: labels of members are positive and distinct, increase along next up to the sentinel, and the
+// successor carries the least label above (no member lies outside the sentinel's cycle)
+func sp_listOrder[K comparable, V any](l *List[K, V]) bool {
+	return all(func(x *Entry[K, V]) bool { return imp(gh_po_in(l, x), gh_po_ord(l, x) > 0) }) &&
+		all(func(x *Entry[K, V]) bool {
+			return all(func(y *Entry[K, V]) bool {
+				return imp(gh_po_in(l, x) && gh_po_in(l, y) && x != y, gh_po_ord(l, x) != gh_po_ord(l, y))
+			})
+		}) &&
+		all(func(x *Entry[K, V]) bool {
+			return all(func(y *Entry[K, V]) bool {
+				return imp(sp_node(l, x) && gh_po_in(l, y) && sp_lab(l, y) > sp_lab(l, x),
+					sp_nx(x, l.listType) != &l.root && sp_lab(l, sp_nx(x, l.listType)) > sp_lab(l, x) && sp_lab(l, sp_nx(x, l.listType)) <= sp_lab(l, y))
+			})
+		})
+}
+
+// region flag <=> membership (policy lists), recorded size and count
+func sp_listAcct[K comparable, V any](l *List[K, V]) bool {
+	return l.count == card(l) && l.len == wsum(l) &&
+		all(func(x *Entry[K, V]) bool { return imp(gh_po_in(l, x), x.flag.Flags&sp_regionBit(l.listType) != 0) })
+}
+
+// full invariant of a policy-region list
+func sp_listInv[K comparable, V any](l *List[K, V]) bool {
+	return l != nil && l.listType != WHEEL_LIST && sp_listShape(l) && sp_listOrder(l) && sp_listAcct(l)
+}
+
+// ---- list operations ----------------------------------------------------------------------------------------
+
+// insert e after at
+func (l *List[K, V]) spec_insert(e, at *Entry[K, V]) {
+	requires("inv", sp_listShape(l) && sp_listOrder(l))
+	requires("at", sp_node(l, at))
+	requires("e", e != nil && e != &l.root && !gh_po_in(l, e) && !sp_isRoot(e.flag.Flags))
+	// ghost: e becomes a member, labelled strictly between at and its successor
+	set(gh_po_in(l, e), true)
+	set(gh_po_ord(l, e), ifelse(old(sp_nx(at, l.listType)) == &l.root, old(sp_lab(l, at))+1, (old(sp_lab(l, at))+old(sp_lab(l, sp_nx(at, l.listType))))/2))
+	ensures("member", gh_po_in(l, e) && all(func(x *Entry[K, V]) bool { return imp(x != e, gh_po_in(l, x) == old(gh_po_in(l, x))) }))
+	ensures("labels", all(func(x *Entry[K, V]) bool { return imp(x != e, gh_po_ord(l, x) == old(gh_po_ord(l, x))) }))
+	ensures("after_at", sp_nx(at, l.listType) == e && sp_pv(e, l.listType) == at && sp_nx(e, l.listType) == old(sp_nx(at, l.listType)))
+	ensures("shape", sp_listShape(l))
+	ensures("order", sp_listOrder(l))
+	ensures("len", l.len == old(l.len)+e.policyWeight && l.count == old(l.count)+1)
+	ensures("flag", e.flag.Flags == old(e.flag.Flags)|sp_regionBit(l.listType))
+	ensures("other_flags", all(func(x *Entry[K, V]) bool { return imp(x != e, x.flag.Flags == old(x.flag.Flags)) }))
+	ensures("weights", all(func(x *Entry[K, V]) bool { return x.policyWeight == old(x.policyWeight) }))
+	// frame on links: only e, at and at's old successor are touched, and only the link kind of this list
+	ensures("frame_links", all(func(x *Entry[K, V]) bool {
+		return imp(x != e && x != at && x != old(sp_nx(at, l.listType)),
+			x.meta.prev == old(x.meta.prev) && x.meta.next == old(x.meta.next) && x.meta.wheelPrev == old(x.meta.wheelPrev) && x.meta.wheelNext == old(x.meta.wheelNext))
+	}))
+	ensures("frame_other_kind", all(func(x *Entry[K, V]) bool {
+		return imp(l.listType == WHEEL_LIST, x.meta.prev == old(x.meta.prev) && x.meta.next == old(x.meta.next)) &&
+			imp(l.listType != WHEEL_LIST, x.meta.wheelPrev == old(x.meta.wheelPrev) && x.meta.wheelNext == old(x.meta.wheelNext))
+	}))
+}
+
+// remove e from the list
+func (l *List[K, V]) spec_remove(e *Entry[K, V]) {
+	requires("inv", sp_listShape(l) && sp_listOrder(l))
+	requires("member", gh_po_in(l, e))
+	set(gh_po_in(l, e), false)
+	ensures("member", !gh_po_in(l, e) && all(func(x *Entry[K, V]) bool { return imp(x != e, gh_po_in(l, x) == old(gh_po_in(l, x))) }))
+	ensures("labels", all(func(x *Entry[K, V]) bool { return gh_po_ord(l, x) == old(gh_po_ord(l, x)) }))
+	ensures("unlinked", sp_nx(e, l.listType) == nil && sp_pv(e, l.listType) == nil)
+	ensures("shape", sp_listShape(l))
+	ensures("order", sp_listOrder(l))
+	ensures("len", l.len == old(l.len)-e.policyWeight && l.count == old(l.count)-1)
+	ensures("flag", e.flag.Flags == ifelse(l.listType == WHEEL_LIST, old(e.flag.Flags), old(e.flag.Flags)&^(2|4|64)))
+	ensures("other_flags", all(func(x *Entry[K, V]) bool { return imp(x != e, x.flag.Flags == old(x.flag.Flags)) }))
+	ensures("weights", all(func(x *Entry[K, V]) bool { return x.policyWeight == old(x.policyWeight) }))
+	ensures("frame_links", all(func(x *Entry[K, V]) bool {
+		return imp(x != e && x != old(sp_pv(e, l.listType)) && x != old(sp_nx(e, l.listType)),
+			x.meta.prev == old(x.meta.prev) && x.meta.next == old(x.meta.next) && x.meta.wheelPrev == old(x.meta.wheelPrev) && x.meta.wheelNext == old(x.meta.wheelNext))
+	}))
+	ensures("frame_other_kind", all(func(x *Entry[K, V]) bool {
+		return imp(l.listType == WHEEL_LIST, x.meta.prev == old(x.meta.prev) && x.meta.next == old(x.meta.next)) &&
+			imp(l.listType != WHEEL_LIST, x.meta.wheelPrev == old(x.meta.wheelPrev) && x.meta.wheelNext == old(x.meta.wheelNext))
+	}))
+}
